@@ -22,6 +22,17 @@ TNext == /\ l <= Len(Trace)
               IF E.ev = "cfg"
               THEN mon' = MonInit([N |-> E.N, TrigF |-> E.TrigF, MinF |-> E.MinF, MaxF |-> E.MaxF,
                                    ConstOn |-> E.ConstOn, SnapLen |-> E.SnapLen, winS |-> E.winS, winE |-> E.winE])
+              ELSE IF E.ev = "realsinks"
+              THEN \* real CPTV recorders on all three sinks, output directory taken away and put back: no panic, every
+                   \* published file decodes, and the final isolated blip at frame E.blip is recorded as C02/C03 demand
+                   /\ UNCHANGED mon
+                   /\ LET lo == IF E.blip - (E.N - 1) > 1 THEN E.blip - (E.N - 1) ELSE 1
+                          hi == E.blip + (IF E.MinF > 1 THEN E.MinF - 1 ELSE 0)
+                          want == [i \in 1..(hi - lo + 1) |-> lo + i - 1]
+                          v == (IF E.panic # "" THEN {"C12:panic"} ELSE {})
+                               \cup (IF E.undecodable > 0 THEN {"C12:published-file-undecodable-after-failures"} ELSE {})
+                               \cup (IF E.panic = "" /\ E.last # want THEN {"C12:not-recording-normally-after-failures"} ELSE {})
+                      IN IF v = {} THEN TRUE ELSE PrintT(<<"VIOL", l, v>>)
               ELSE \E m1 \in {MonStep(mon, E)} :
                      /\ mon' = m1
                      /\ (IF m1.v = {} THEN TRUE ELSE PrintT(<<"VIOL", l, m1.v>>))
